@@ -1,17 +1,233 @@
 package kvsim
 
+import (
+	"math"
+	"strconv"
+	"strings"
+
+	"verif/sim/model"
+)
+
 // Recorded deviations of the implementation from the documented / Redis
-// behaviour. Each is recognised by the shape of the command alone (never by
-// looking at what the implementation answered), reported under its own
-// known-finding key, and the model is resynchronised for the addressed key so
-// that checking continues.
+// behaviour (candidate genuine defects; none of them is documented in
+// doc/user-guide.md). Each is recognised by the shape of the command and by
+// what the reference model expects — never by what the implementation
+// answered — and a violation observed on exactly that command carries the
+// deviation's known-finding key. Keys that a damaging shape was executed on
+// are excluded from further judgement for the rest of the run.
 
-// knownReply: known-finding key for a reply mismatch on this command shape.
-func knownReply(args []string, got, want interface{}) string { return "" }
+func dupIn(a []string) bool {
+	seen := map[string]bool{}
+	for _, x := range a {
+		if seen[x] {
+			return true
+		}
+		seen[x] = true
+	}
+	return false
+}
 
-// knownData: known-finding key for a content mismatch of x after this command.
-func knownData(args []string, x tuple) string { return "" }
+func isErr(v interface{}, containing string) bool {
+	e, ok := v.(model.Err)
+	return ok && strings.Contains(string(e), containing)
+}
 
-func known09(rule string) string { return "" }
+// lenientInt: accepted by Go's strconv.ParseInt but not by Redis' string2ll
+// ("+5", "007", "-0").
+func lenientInt(s string) bool {
+	_, err := strconv.ParseInt(s, 10, 64)
+	return err == nil
+}
+
+func scoreInf(s string) int {
+	s = strings.TrimPrefix(s, "(")
+	f, err := strconv.ParseFloat(s, 64)
+	if err != nil {
+		return 0
+	}
+	if math.IsInf(f, 1) {
+		return 1
+	}
+	if math.IsInf(f, -1) {
+		return -1
+	}
+	return 0
+}
+
+// knownShape returns the known-finding key of a command shape ("" if none).
+// want is the model's reply (nil when no model runs), st the model state
+// after the command, preLen the length the addressed list had before the
+// command as the harness read it (-1: not known, e.g. inside a batch).
+func knownShape(args []string, want interface{}, st *model.Store, preLen int) string {
+	name := args[0]
+	a := args[1:]
+	if model.MultiKey(name) {
+		for _, k := range a {
+			if strings.IndexByte(k, ':') <= 0 {
+				return "malformed-key-in-multi-key-command-not-rejected"
+			}
+		}
+	}
+	// score arguments
+	switch name {
+	case "zadd":
+		for i := 1; i+1 < len(a); i += 2 {
+			if strings.EqualFold(a[i], "nan") {
+				return "nan-score-accepted"
+			}
+		}
+	case "zincrby":
+		if (len(a) == 3 && strings.EqualFold(a[1], "nan")) || isErr(want, "nan") {
+			return "nan-score-accepted"
+		}
+		if len(a) == 3 {
+			if f, err := strconv.ParseFloat(a[1], 64); err == nil && f == 0 {
+				return "zincrby-zero-drops-member-from-score-index"
+			}
+		}
+	case "zrangebyscore", "zrevrangebyscore", "zcount", "zremrangebyscore":
+		if len(a) >= 3 {
+			for _, b := range a[1:3] {
+				if strings.EqualFold(strings.TrimPrefix(b, "("), "nan") {
+					return "nan-score-accepted"
+				}
+			}
+			for _, b := range a[1:3] {
+				if scoreInf(b) != 0 && !strings.EqualFold(b, "-inf") && !strings.EqualFold(b, "+inf") {
+					return "score-range-inf-accepted-only-as-minus-inf-or-plus-inf"
+				}
+			}
+		}
+	}
+	switch name {
+	case "hmset":
+		if len(a) >= 5 && len(a)%2 == 1 {
+			var fs []string
+			for i := 1; i < len(a); i += 2 {
+				fs = append(fs, a[i])
+			}
+			if dupIn(fs) {
+				return "hmset-duplicate-field-counted-twice"
+			}
+		}
+	case "hdel":
+		if len(a) > 2 && dupIn(a[1:]) {
+			return "hdel-duplicate-field-counted-twice"
+		}
+	case "spop", "srandmember":
+		if len(a) == 2 && a[1] == "0" {
+			return "spop-srandmember-count-zero-is-an-error"
+		}
+	case "ltrim":
+		// start and stop both lie before the head of a non-empty list
+		if len(a) == 3 {
+			b, err1 := strconv.ParseInt(a[1], 10, 64)
+			e, err2 := strconv.ParseInt(a[2], 10, 64)
+			if err1 == nil && err2 == nil && b < 0 && e < 0 && (preLen < 0 || (preLen > 0 && b+int64(preLen) < 0 && e+int64(preLen) < 0)) {
+				return "ltrim-range-before-head-errors-and-corrupts-the-list"
+			}
+		}
+	}
+	switch name {
+	case "sadd":
+		if len(a) > 2 && dupIn(a[1:]) {
+			return "sadd-duplicate-member-counted-twice"
+		}
+	case "srem":
+		if len(a) > 2 && dupIn(a[1:]) {
+			return "srem-duplicate-member-counted-twice"
+		}
+	case "zrem":
+		if len(a) > 2 && dupIn(a[1:]) {
+			return "zrem-duplicate-member-counted-twice"
+		}
+	case "zadd":
+		if len(a) >= 5 && len(a)%2 == 1 {
+			var ms []string
+			for i := 2; i < len(a); i += 2 {
+				ms = append(ms, a[i])
+			}
+			if dupIn(ms) {
+				return "zadd-duplicate-member-in-one-command"
+			}
+		}
+	case "del":
+		if dupIn(a) {
+			return "del-duplicate-key-counted-twice"
+		}
+	case "decr", "decrby":
+		return "decr-documented-but-not-registered"
+	case "getrange":
+		if b, ok := want.([]byte); ok && len(b) == 0 {
+			return "getrange-empty-result-is-nil"
+		}
+	case "srandmember":
+		if len(a) == 1 {
+			return "srandmember-without-count-returns-array"
+		}
+	case "append":
+		if len(a) == 2 && a[1] == "" {
+			return "append-empty-value-returns-0"
+		}
+	case "setrange":
+		if len(a) == 3 && a[2] == "" {
+			return "setrange-empty-value-returns-0"
+		}
+		if len(a) > 3 {
+			return "setrange-extra-arguments-ignored"
+		}
+	case "incr", "incrby", "hincrby":
+		if isErr(want, "overflow") {
+			return "incr-overflow-wraps-around"
+		}
+		if isErr(want, "not int") && st != nil {
+			// the stored value and the increment are integers for Go's ParseInt
+			cur, inc := "0", "1"
+			switch name {
+			case "incr":
+				if v, ok := st.KV[a[0]]; ok {
+					cur = v
+				}
+			case "incrby":
+				if v, ok := st.KV[a[0]]; ok {
+					cur = v
+				}
+				if len(a) == 2 {
+					inc = a[1]
+				}
+			case "hincrby":
+				if len(a) == 3 {
+					if v, ok := st.Hash[a[0]][a[1]]; ok {
+						cur = v
+					}
+					inc = a[2]
+				}
+			}
+			if lenientInt(cur) && lenientInt(inc) {
+				return "integer-parse-accepts-plus-sign-and-leading-zeros"
+			}
+		}
+	case "zrangebyscore", "zrevrangebyscore", "zcount", "zremrangebyscore":
+		if len(a) >= 3 {
+			lo, hi := a[1], a[2]
+			if name == "zrevrangebyscore" {
+				lo, hi = a[2], a[1]
+			}
+			if _, bad := want.(model.Err); !bad && (scoreInf(lo) > 0 || scoreInf(hi) < 0) {
+				return "score-range-with-inf-on-the-far-side-is-an-error"
+			}
+			if _, bad := want.(model.Err); !bad && (strings.HasPrefix(lo, "(") || strings.HasPrefix(hi, "(")) {
+				return "score-range-exclusive-bound-is-bound-plus-minus-one"
+			}
+		}
+	case "zrangebylex", "zlexcount", "zremrangebylex":
+		if len(a) >= 3 {
+			if _, bad := want.(model.Err); !bad && (a[1] == "+" || a[2] == "-") {
+				return "lex-range-with-plus-as-min-or-minus-as-max-is-an-error"
+			}
+		}
+	}
+	return ""
+}
 
 func known13(sp scanSpec, rule string) string { return "" }
